@@ -113,13 +113,45 @@ def _subtotals(rng, var, allow_diff=True):
     return out
 
 
+def _wave_subtotals(rng, var):
+    """row insertions on a categorical-date dimension: a multi-term wave difference (several addends and/or several
+    subtrahends), optionally a single-term one and a plain multi-addend subtotal"""
+    ids = [c["id"] for c in var.cats if not c["missing"]]
+    out = []
+
+    def ins(pos, neg):
+        out.append({"function": "subtotal", "name": "W%d" % len(out), "anchor": rng.choice(["top", "bottom"] + ids),
+                    "args": pos, "kwargs": {"negative": neg} if neg else {}})
+    kinds = ["multi"] + [k for k in ("single", "plain", "multi") if rng.random() < 0.5]
+    rng.shuffle(kinds)
+    for kind in kinds:
+        perm = rng.sample(ids, len(ids))
+        if kind == "multi":
+            na = rng.choice([1, 2, 2]) if len(ids) >= 3 else 1
+            nn = 2 if (na == 1 or (len(ids) >= 4 and rng.random() < 0.4)) else 1
+            nn = min(nn, len(ids) - na)
+            if na == 1 and nn < 2:
+                na, nn = 2, 1
+            ins(perm[:na], perm[na:na + nn])
+        elif kind == "single":
+            ins(perm[:1], perm[1:2])
+        else:
+            ins(perm[:rng.randint(2, len(ids))], [])
+    return out
+
+
 def gen_api(rng):
-    shape = rng.choice(["2d", "2d", "2d", "2d", "3d", "means2d", "means1d", "notdate", "badfunc"])
+    shape = rng.choice(["2d", "2d", "2d", "2d", "3d", "means2d", "means1d", "notdate", "badfunc", "wavediff"])
     col_kind = "cat_date"
     row_kind = rng.choice(["cat", "cat", "cat", "mr", "text", "cat_date"])
+    wavediff = shape == "wavediff"
+    if wavediff:
+        # CAT_DATE x CAT_DATE with wave-difference ROW subtotals (single- and multi-term) and plain multi-addend ones:
+        # a multi-term wave difference has NaN column proportions, so its smoothed row is NaN too
+        shape, row_kind = "2d", "cat_date"
     if shape == "notdate":
         col_kind = rng.choice(["cat", "text", "datetime"])
-    ncols = rng.randint(1, 7)
+    ncols = rng.randint(3, 7) if wavediff else rng.randint(1, 7)
     vars_ = []
     if shape == "3d":
         vars_.append(gen.gen_var(rng, "cat", "t", n=rng.randint(1, 3)))
@@ -128,11 +160,14 @@ def gen_api(rng):
     else:
         if shape == "means2d":
             row_kind = "cat"
-        vars_.append(gen.gen_var(rng, row_kind, "r", n=rng.randint(1, 4), numeric=rng.choice(["some", "all", "some", "none"])))
+        vars_.append(gen.gen_var(rng, row_kind, "r", n=rng.randint(3, 6) if wavediff else rng.randint(1, 4),
+                                 numeric=rng.choice(["some", "all", "some", "none"]), min_valid=3 if wavediff else 1))
         vars_.append(gen.gen_var(rng, col_kind, "c", n=ncols))
     weighted = rng.random() < 0.6
     survey = gen.gen_survey(rng, vars_, weighted=weighted, n_resp=rng.randint(0, 60))
     w = rng.choice(["absent", None, 0, 1, 2, 2, 2, 3, 3, 4, 5, ncols, ncols + 1, -1])
+    if wavediff:
+        w = rng.choice([2, 2, 3, "absent"])
     smoother = {}
     if w != "absent":
         smoother["window"] = w
@@ -147,7 +182,9 @@ def gen_api(rng):
             "smoother": smoother if smoother_given else "absent",
             "row_subtotals": [], "col_subtotals": [], "means": None}
     if shape in ("2d", "3d", "notdate", "badfunc") and row_kind in ("cat", "cat_date") and rng.random() < 0.6:
-        case["row_subtotals"] = _subtotals(rng, vars_[-2], allow_diff=row_kind != "cat_date")
+        case["row_subtotals"] = _subtotals(rng, vars_[-2])
+    if wavediff:
+        case["row_subtotals"] = _wave_subtotals(rng, vars_[-2])
     if shape in ("2d",) and rng.random() < 0.15:
         case["col_subtotals"] = _subtotals(rng, vars_[-1], allow_diff=False)
     if shape in ("2d", "3d", "means2d") and rng.random() < 0.2:
@@ -255,13 +292,17 @@ class Table:
 
 
 def _sub_rows(case, tab):
-    """exact column proportions of the row subtotals (non-date rows: count difference over the column base)"""
+    """exact column proportions of the row subtotals: count difference over the column base; on CATEGORICAL-DATE rows
+    a wave difference with more than one addend or more than one subtrahend is NaN (C04's wave-difference rule)"""
     out = []
     rv = tab.rv
     id2pos = {c["id"]: p for p, c in enumerate(rv.cats)}
     for st in case["row_subtotals"]:
         add = [id2pos[i] for i in st["args"]]
         neg = [id2pos[i] for i in st.get("kwargs", {}).get("negative", [])]
+        if rv.kind == "cat_date" and neg and (len(neg) > 1 or len(add) > 1):
+            out.append([None for _ in tab.cols])
+            continue
         row = []
         for j in tab.cols:
             num = sum(tab.count(i, j) for i in add) - sum(tab.count(i, j) for i in neg)
@@ -475,6 +516,10 @@ def eval_api(case, louts, ctx):
     func = sm.get("function") or "one_sided_moving_avg"
     expect_raise = func != "one_sided_moving_avg"
     ctx.count("api:" + shape)
+    if shape == "2d" and vars_[0].kind == "cat_date" and vars_[-1].kind == "cat_date" and any(
+            st.get("kwargs", {}).get("negative") and (len(st["kwargs"]["negative"]) > 1 or len(st["args"]) > 1)
+            for st in case["row_subtotals"]):
+        ctx.count("api:catdate-x-catdate multi-term wave difference row")
     key = None
 
     def check_raise(name, thunk, out):
